@@ -16,6 +16,7 @@ mod c11;
 mod c12;
 mod c07;
 mod c14;
+mod c19;
 mod c20;
 
 use util::Opts;
@@ -60,6 +61,7 @@ fn main() {
         "C10" => c10::run(&o),
         "C11" => c11::run(&o),
         "C12" => c12::run(&o),
+        "C19" => c19::run(&o),
         "C07" => c07::run(&o),
         "C14" => c14::run(&o),
         "C20" => c20::run(&o),
